@@ -3257,6 +3257,8 @@ class AttrSetMonad(SetMixin, Monad):
             result_type = float
         elif func_name == 'GROUP_CONCAT':
             result_type = str
+        elif func_name == 'SUM' and item_type is bool:
+            result_type = int
         else:
             result_type = item_type
         translator.aggregated_subquery_paths.add(monad.tableref.name_path)
@@ -3430,6 +3432,8 @@ class NumericSetExprMonad(SetMixin, Monad):
             result_type = float
         elif func_name == 'GROUP_CONCAT':
             result_type = str
+        elif func_name == 'SUM' and monad.type.item_type is bool:
+            result_type = int
         else:
             result_type = monad.type.item_type
         aggr_ast = [ func_name, distinct, expr ]
@@ -3672,6 +3676,8 @@ class QuerySetMonad(SetMixin, Monad):
             result_type = float
         elif func_name == 'GROUP_CONCAT':
             result_type = str
+        elif func_name == 'SUM' and expr_type is bool:
+            result_type = int
         else:
             result_type = expr_type
         return ExprMonad.new(result_type, sql_ast, func_name != 'SUM')
